@@ -7,7 +7,8 @@
      LIB=<-|P|B;..|S;..|G;..>         what the library API returned for those parameters:
                                       B / G = bigraded grid  "i,j,rank,tor,tor..;..",  S = sequence "i,rank,tor..;.."
    output line: the expected result line of the real binary
-     exit=<code> kind=<table|error:<kind>> out=<escaped stdout>
+     exit=<code> kind=<table|error:<kind>> out=<escaped stdout> [fb=<ok|no>]
+   (fb, ckh only: verdict of Table.check_ckh_text on the text the binary printed, field RAW=:<escaped stdout>)
    or "MISMATCH model=<decision> harness=<decision>" when the harness' dispatch differs from the model's
    (then the library cells were computed for the wrong parameters and nothing can be compared). *)
 
@@ -132,7 +133,20 @@ let handle (line : string) : string =
     let code = string_of_n (exit_code o) in
     match o with
     | OError e -> Printf.sprintf "exit=%s kind=error:%s out=" code (err_name e)
-    | OTable s -> Printf.sprintf "exit=%s kind=table out=%s" code (escape_text (text_of_str s))
+    | OTable s ->
+        (* ckh only: when the exact text differs the check falls back on the certificate check *)
+        let fb =
+          match cmd, lib, (try Some (Stdlib.List.assoc "RAW" fs) with Not_found -> None),
+                (match t_arg with None -> Some TZ | Some s -> parse_ctype s) with
+          | Ckh, LG g, Some raw, Some ty ->
+              let c = (match c_arg with None -> s_0 | Some s -> s) in
+              (match decide cmd ty c reduced with
+               | DCompute p ->
+                   let text = str_of_field (String.sub raw 1 (String.length raw - 1)) in
+                   if check_ckh_text (ring_symbol p.p_ring) (ckh_graded c p) g text then " fb=ok" else " fb=no"
+               | _ -> "")
+          | _ -> "" in
+        Printf.sprintf "exit=%s kind=table out=%s%s" code (escape_text (text_of_str s)) fb
   end
 
 let () = run_lines handle
